@@ -78,6 +78,58 @@ def isArrJ : Option JVal → Bool
   | some (.arr _) => true
   | _ => false
 
+/-! ## list results page by page (`paginateList`, `featureSet.above`; `mcp/server.go`, `mcp/features.go`)
+
+What a `tools/list` / `prompts/list` / `resources/list` / `resources/templates/list` request is
+answered with, as far as the required list member goes, for EVERY registry, page size and cursor: no
+cursor, a cursor the server issued earlier (possibly stale: features were removed or added since), a
+forged but well-formed one naming any string — below, at, between or beyond the keys.  The cursor
+codec (gob + base64) is abstract: a cursor either decodes to a uid or it does not. -/
+
+/-- byte-wise `<` on strings, as Go compares them -/
+def keyLt : Bytes → Bytes → Bool
+  | [], [] => false
+  | [], _ :: _ => true
+  | _ :: _, [] => false
+  | a :: as, b :: bs => if a < b then true else if b < a then false else keyLt as bs
+
+inductive Cursor where
+  | first                 -- no cursor, or the empty string
+  | after (uid : Bytes)   -- decodes to a page token naming `uid`
+  | garbage               -- does not decode
+deriving DecidableEq, Repr, Inhabited
+
+/-- `featureSet.above(uid)` on the sorted key list: from the binary-search position of `uid` on (one
+further if found) — i.e. without the leading keys that are not above `uid`. -/
+def keysAbove (uid : Bytes) (keys : List Bytes) : List Bytes := keys.dropWhile (fun k => !keyLt uid k)
+
+/-- the sequence `paginateList` ranges over -/
+def pageSeq (keys : List Bytes) : Cursor → List Bytes
+  | .after uid => keysAbove uid keys
+  | _ => keys
+
+/-- `paginateList` + the `setFunc` of the four list handlers: the `features` slice stays nil when the
+loop appends nothing; `setFunc` starts from an empty NON-NIL slice ("avoid JSON null") and is reached
+on every path that returns a result.  `item` is the wire form of a feature.  Result: what is sent for
+the list member, and the uid the next cursor names. -/
+def listPage (k : RKind) (item : Bytes → JVal) (keys : List Bytes) (pageSize : Nat) (c : Cursor) : ROut × Option Bytes :=
+  match c with
+  | .garbage => (.errorInstead, none)            -- `jsonrpc2.ErrInvalidParams`
+  | c =>
+    let seq := pageSeq keys c
+    let feats := seq.take pageSize
+    let l : RList := if feats = [] then .nil else .items (feats.map item)
+    (sdkResultList k l, if pageSize < seq.length then feats.getLast? else none)
+
+def RKind.isPaged : RKind → Bool
+  | .listTools | .listPrompts | .listResources | .listResourceTemplates => true
+  | _ => false
+
+/-- insertion into the sorted key list (`featureSet.add`: a map; the sorted index is rebuilt) -/
+def keyInsert (k : Bytes) : List Bytes → List Bytes
+  | [] => [k]
+  | h :: t => if keyLt k h then k :: h :: t else if k = h then h :: t else h :: keyInsert k t
+
 /-! ## `tools/call` through a raw `ToolHandler` (`Server.AddTool`, `Server.callTool`)
 
 The low-level handler's result goes out as it is ("without any validation of the output"), except
